@@ -235,17 +235,50 @@ def _make_pack_contract(real):
     return pack_bitstring
 
 
+_DECOMP = {"space": None, "memo": {}}
+
+
+def decompose(space, ze):
+    """8 fresh Bool variables b_k with the defining constraint ze == sum(b_k * 2**k) (binary expansion of a byte,
+    unique for 0 <= ze <= 255). Memoised per path so that every user of the same byte term shares the same bits.
+    Variable names are numbered per path in creation order (deterministic across CrossHair's path replays)."""
+    if _DECOMP["space"] is not space:
+        _DECOMP["space"] = space
+        _DECOMP["memo"] = {}
+    memo = _DECOMP["memo"]
+    key = ze.get_id()
+    hit = memo.get(key)
+    if hit is not None and z3.eq(hit[0], ze):
+        return hit[1]
+    n = len(memo)
+    bits = [z3.Bool("bitx_%d_%d" % (n, k)) for k in range(8)]
+    total = z3.Sum([z3.If(b, z3.IntVal(1 << k), z3.IntVal(0)) for k, b in enumerate(bits)])
+    space.add(ze == total)
+    memo[key] = (ze, bits)
+    return bits
+
+
+def bit_of(byte, k):
+    """bit k of a byte value (harness-side helper; symbolic bytes use the shared binary expansion)."""
+    with NoTracing():
+        if isinstance(byte, SymbolicInt):
+            return SymbolicBool(decompose(context_statespace(), byte.var)[k])
+    return (byte >> k) & 1 == 1
+
+
 def _make_unpack_contract(real):
     def unpack_bitstring(string):
         elems = _elements(string)
         with NoTracing():
             if not any(_is_sym(e) for e in elems):
                 return real(bytes(elems))
+            space = context_statespace()
             bits = []
             for e in elems:
-                ze = _z(e)
-                for k in range(8):
-                    bits.append(SymbolicBool((ze / (1 << k)) % 2 == 1))
+                if _is_sym(e):
+                    bits.extend(SymbolicBool(t) for t in decompose(space, _z(e)))
+                else:
+                    bits.extend(((e >> k) & 1) == 1 for k in range(8))
             return bits
     return unpack_bitstring
 
